@@ -19,8 +19,12 @@ type pairCase struct {
 	Attr    int
 }
 
-// pairCases lists the cases: a prefix that walks every attribute in two worlds (the quick tier),
-// then the full attribute x world x profile product on plain bases, then PRNG-chosen base variants.
+// quickPairCases is the length of the prefix of pairCases that the quick tier evaluates.
+var quickPairCases int
+
+// pairCases lists the cases: a prefix that walks every attribute in two worlds on PRNG-chosen profiles and
+// base variants, then the full attribute x world x profile product on plain bases (the quick tier ends here,
+// so that which key fields it exercises does not depend on the seed), then PRNG-chosen base variants.
 func pairCases(c *vh.Ctx) []pairCase {
 	var out []pairCase
 	pickProfile := func(r *rand.Rand, w int, a attribute) string {
@@ -54,6 +58,7 @@ func pairCases(c *vh.Ctx) []pairCase {
 			}
 		}
 	}
+	quickPairCases = len(out)
 	for k := 0; k < 260; k++ {
 		r := c.Rng("pair-random", k)
 		w := r.Intn(len(worlds))
@@ -65,7 +70,7 @@ func pairCases(c *vh.Ctx) []pairCase {
 
 func runKeys(c *vh.Ctx) {
 	cases := pairCases(c)
-	n := c.N(2*len(attributes), len(cases))
+	n := c.N(quickPairCases, len(cases))
 	servers := map[int]*server{}
 	defer func() {
 		for _, s := range servers {
@@ -82,20 +87,22 @@ func runKeys(c *vh.Ctx) {
 		}
 		a := attributes[pc.Attr]
 		desc := fmt.Sprintf("pair/%d/%s/%s/%s/%s", i, worlds[pc.World].Name, pc.Profile, baseVariants[pc.Variant].Name, a.Name)
+		base := profiles[pc.Profile].clone()
+		baseVariants[pc.Variant].Apply(&base)
+		basePrep(a.Name, &base)
+		alt := base.clone()
+		a.Apply(&alt)
+		if specString(alt) == specString(base) {
+			// the variant already has the alternative value: not a pair, nothing is evaluated
+			// (one Case = one evaluated pair, so that evaluations and distinct_nontrivial count the same unit)
+			c.Count("pairs_degenerate", 1)
+			continue
+		}
 		c.Case(desc, func() {
 			s := servers[pc.World]
 			if s == nil {
 				s = startServer(worlds[pc.World].Opts(), worlds[pc.World].Shards)
 				servers[pc.World] = s
-			}
-			base := profiles[pc.Profile].clone()
-			baseVariants[pc.Variant].Apply(&base)
-			basePrep(a.Name, &base)
-			alt := base.clone()
-			a.Apply(&alt)
-			if specString(alt) == specString(base) {
-				c.Count("pairs_degenerate", 1)
-				return // the variant already has the alternative value: not a pair
 			}
 			evalPair(c, s, pc, base, alt)
 		})
@@ -130,7 +137,7 @@ func evalPair(c *vh.Ctx, s *server, pc pairCase, base, alt proxySpec) {
 		served1 := generate(s.warm, s.srv.SetupProxy(first.build()), push, routes1)
 		fresh1 := generate(s.cold, s.srv.SetupProxy(first.build()), push, routes1)
 
-		report := func(served, fresh *output, who proxySpec, other proxySpec, routes []string, kind string) {
+		report := func(served, fresh, otherFresh *output, who proxySpec, other proxySpec, routes []string, kind string) {
 			diffs := compare(served, fresh)
 			c.Count("resources_compared", fresh.count())
 			if len(diffs) == 0 {
@@ -156,15 +163,24 @@ func evalPair(c *vh.Ctx, s *server, pc pairCase, base, alt proxySpec) {
 				for _, x := range ds {
 					names = append(names, x.Name+"("+x.What+")")
 				}
+				// generic key: resource type + differing attribute. A difference whose input shape and diff shape match an
+				// analysed root cause (explain.go) names that cause instead, so that anything else stays visible.
 				key := fmt.Sprintf("%s:%s:%s", kind, t, attr)
+				cause := explain(pairObservation{s: s, typ: t, served: who, warmedBy: other, diffs: ds, servedOut: served, freshOut: fresh, otherFresh: otherFresh})
+				if cause != "" {
+					key = fmt.Sprintf("%s:cause=%s:%s:%s", kind, cause, t, attr)
+					c.Count("pair_violations_attributed_to_an_analysed_root_cause", 1)
+				} else {
+					c.Count("pair_violations_without_analysed_root_cause", 1)
+				}
 				msg := fmt.Sprintf("world %s, %s: proxy [%s] was served %s resources %v that differ from a fresh generation on the same snapshot, after the cache was warmed by proxy [%s] (differs only in %s). %s %s: %s",
 					world, dirName, specString(who), strings.ToUpper(t), names, specString(other), attr, d.Name, d.What, d.Diff)
 				c.Violation(key, msg, map[string]any{"world": world, "attribute": attr, "direction": dirName, "served_to": who, "cache_warmed_by": other,
-					"type": t, "resources": names, "diff": d.Diff})
+					"type": t, "resources": names, "diff": d.Diff, "cause": cause})
 			}
 		}
-		report(served2, fresh2, second, first, routes2, "key-incomplete")
-		report(served1, fresh1, first, second, routes1, "self-serve")
+		report(served2, fresh2, fresh1, second, first, routes2, "key-incomplete")
+		report(served1, fresh1, fresh2, first, second, routes1, "self-serve")
 
 		hitsSecond += served2.allHits()
 		for _, t := range cacheTypes {
